@@ -1866,3 +1866,29 @@ V(id='c43-even-integer-threshold-too-low', prop='C43', file='mpmath/math2.py',
   old="    if x >= 9007199254740992.0:", new="    if x >= 4503599627370496.0:", expect='fire:F-R9:_reduce_half')
 V(id='c43-even-integer-threshold-benign', prop='C43', file='mpmath/math2.py',
   old="    if x >= 9007199254740992.0:", new="    if x >= 2.0**60:", expect='silent')
+
+# ---- S-R1 special-value tables (C02, C06) ----
+V(id='c06-mod-zero-divisor-shortcut', prop='C06', file='mpmath/libmp/libmpf.py',
+  old="    if tman and ssign == tsign and texp > sexp+sbc:", new="    if ssign == tsign and texp > sexp+sbc:",
+  expect='fire:S-R1:mpf_mod')
+V(id='c06-frac-of-inf', prop='C06', file='mpmath/libmp/libmpf.py',
+  old="def mpf_frac(s, prec=0, rnd=round_fast):\n    return mpf_sub(s, mpf_floor(s), prec, rnd)",
+  new="def mpf_frac(s, prec=0, rnd=round_fast):\n    if not s[1]:\n        return fzero\n    return mpf_sub(s, mpf_floor(s), prec, rnd)",
+  expect='fire:S-R1:mpf_frac')
+V(id='c02-add-inf-minus-inf', prop='C02', file='mpmath/libmp/libmpf.py',
+  old="            if s == t or tman or not texp:\n                return s\n            return fnan", new="            return s",
+  expect='fire:S-R1:mpf_add')
+V(id='c02-mul-zero-times-inf', prop='C02', file='mpmath/libmp/libmpf.py',
+  old="    if t == fzero: return fnan\n    return {1:finf, -1:fninf}[mpf_sign(s) * mpf_sign(t)]",
+  new="    if t == fzero: return fzero\n    return {1:finf, -1:fninf}[mpf_sign(s) * mpf_sign(t)]",
+  all=True, expect='fire:S-R1:mpf_mul')
+V(id='c02-div-by-zero-returns-inf', prop='C02', file='mpmath/libmp/libmpf.py',
+  old="        if t == fzero:\n            raise ZeroDivisionError\n        s_special", new="        if t == fzero:\n            return finf\n        s_special",
+  expect='fire:S-R1:mpf_div')
+V(id='c02-neg-keeps-inf-sign', prop='C02', file='mpmath/libmp/libmpf.py',
+  old="            if s == finf: return fninf\n            if s == fninf: return finf\n        return s", new="            pass\n        return s",
+  expect='fire:S-R1:mpf_neg')
+V(id='c02-div-special-benign-reorder', prop='C02', file='mpmath/libmp/libmpf.py',
+  old="        if s_special and t_special:\n            return fnan\n        if s == fnan or t == fnan:\n            return fnan",
+  new="        if s == fnan or t == fnan:\n            return fnan\n        if s_special and t_special:\n            return fnan",
+  expect='silent')
